@@ -1026,6 +1026,7 @@ func (db *DB) reWriteData(pendingMergeEntries []*Entry) error {
 
 	dataFile, err := NewDataFile(db.getDataPath(db.MaxFileID+1), db.opt.SegmentSize, db.opt.RWMode)
 	if err != nil {
+		tx.Rollback()
 		db.isMerging = false
 		return err
 	}
